@@ -709,6 +709,21 @@ impl Core {
     pub(crate) fn verif_context(&self) -> Arc<Context> {
         self.context.clone()
     }
+
+    /// `true` = the connection is admitted by the filtering rules
+    pub fn verif_evaluate_connection_rules(
+        &self,
+        client_ip: Option<std::net::IpAddr>,
+        client_random: Option<&[u8]>,
+    ) -> bool {
+        Self::evaluate_connection_rules(
+            &self.context,
+            client_ip,
+            client_random,
+            &log_utils::IdChain::empty(),
+        )
+        .is_ok()
+    }
 }
 
 #[cfg(test)]
